@@ -294,6 +294,19 @@ class Check:
         wall = time.time() - self.t0
         EVIDENCE_DIR.mkdir(exist_ok=True)
 
+        # An exception that left *repository* code and that the check did not expect
+        # (its trace-back runs through aas_core_codegen/) is an observation about the
+        # repository, not a failure of the harness: on the unchanged tree no check sees one.
+        if not self.violations and self.harness_errors:
+            marker = str(env.REPO / "aas_core_codegen") + "/"
+            from_repo = [e for e in self.harness_errors if marker in e]
+            if from_repo:
+                last = [ln for ln in from_repo[0].strip().splitlines() if ln.strip()][-1]
+                self.violation(
+                    "uncaught-exception-from-repository|" + normalize_message(last, 70),
+                    {"trace_backs": [e[-3000:] for e in from_repo[:3]]},
+                )
+
         replay_paths: Dict[str, str] = {}
         if self.violations:
             rdir = REPLAY_DIR / self.property_id
